@@ -363,6 +363,55 @@ func runInjectCase(file string, c *ijCase, n int) ijObs {
 			check("after-external-labels-reload-and-update")
 		}
 	}
+	// jobs come and go across reloads while the assignment stays: a job that is renamed away and restored gets its
+	// targets back, and a job that appears only now gets the targets that were assigned to its name all along
+	staticOf := func(jobName string) ([]string, bool) {
+		raw3, err := os.ReadFile(file)
+		if err != nil {
+			return nil, false
+		}
+		gen3, err := config.Load(string(raw3), false, log.NewNopLogger())
+		if err != nil {
+			return nil, false
+		}
+		for _, g := range gen3.ScrapeConfigs {
+			if g.JobName != jobName {
+				continue
+			}
+			var addrs []string
+			for _, sdc := range g.ServiceDiscoveryConfigs {
+				if st, ok := sdc.(pdiscovery.StaticConfig); ok {
+					for _, grp := range st {
+						for _, t := range grp.Targets {
+							addrs = append(addrs, string(t["__address__"]))
+						}
+					}
+				}
+			}
+			sort.Strings(addrs)
+			return addrs, true
+		}
+		return nil, false
+	}
+	if err := inj.UpdateTargets(assign); err == nil {
+		away := strings.Replace(yaml, "job_name: job1\n", "job_name: job1-renamed\n", 1)
+		if cm.ReloadFromRaw([]byte(away)) == nil && cm.ReloadFromRaw([]byte(yaml)) == nil {
+			want := []string{}
+			for _, t := range assign["job1"] {
+				want = append(want, t.Address())
+			}
+			sort.Strings(want)
+			if got, ok := staticOf("job1"); !ok || strings.Join(got, ",") != strings.Join(want, ",") {
+				o.JobProblems = append(o.JobProblems, fmt.Sprintf("job1 after being renamed away and restored: targets %v, assigned %v", got, want))
+			}
+		}
+		late := strings.Replace(yaml, "job_name: job1\n", "job_name: gone-job\n", 1)
+		if cm.ReloadFromRaw([]byte(late)) == nil {
+			if got, ok := staticOf("gone-job"); !ok || len(got) != 1 || got[0] != assign["gone-job"][0].Address() {
+				o.JobProblems = append(o.JobProblems, fmt.Sprintf("gone-job appears in the configuration after its targets were assigned: targets %v", got))
+			}
+		}
+	}
 	// slots in file order: alerting, jobs (already appended above - reorder), remote write, remote read
 	var slots []ijSlot
 	for _, am := range gen.AlertingConfig.AlertmanagerConfigs {
